@@ -55,7 +55,46 @@ def partial_writes(p, rng, n):
         p.coll_put(rng.randrange(len(p.fm.vars)))
 
 
+def gen_single_recvar_case(rng, i, nprocs, EC):
+    """exactly ONE record variable, narrow type, odd record length (records are then packed without padding), fill mode:
+    records are written, then single records are filled explicitly -- the neighbouring records must keep their data"""
+    p = Prog(rng, nprocs, "@OUT@/c16.nc")
+    p.create()
+    p.def_dim(b"rec", 0)
+    p.def_dim(b"odd", rng.choice([1, 3, 5, 7]))
+    if rng.random() < 0.5:
+        p.def_var(b"fixed", rng.choice([4, 6]), [1])
+    xt = rng.choice([1, 2, 3] if p.version < 5 else [1, 2, 3, 7, 8])
+    vid = p.def_var(b"only", xt, [0, 1])
+    p.def_var_fill(vid, 0, custom_fill(rng, xt) if rng.random() < 0.5 else None)
+    p.enddef()
+    nrec = rng.randint(2, 5)
+    v = p.fm.vars[vid]
+    L = p.fm.dims[1][1]
+    # one rank writes all records (the others take part with zero-length requests)
+    for r in range(nprocs):
+        if r == 0:
+            p.one_access("put", 0, vid, [0, 0], [nrec, L], [1, 1], True, form="vara", mt=XT2MEM[xt] if xt != 2 else "text")
+        else:
+            p.one_access("put", r, vid, [0, 0], [0, 0], [1, 1], True, form="vara", mt=XT2MEM[xt] if xt != 2 else "text")
+    p.sync3()
+    for _ in range(rng.randint(1, 3)):
+        p.fill_var_rec(vid, rng.randint(0, nrec - 1))
+        p.sync3()
+        p.read_all()
+    p.close()
+    p.reopen(omode=0)
+    p.read_all()
+    p.close()
+    p.emit("*", "barrier")
+    p.emit(0, "snapshot", path="s:@OUT@/c16.nc", tag="final")
+    p.emit("*", "balance", final=1)
+    return Case("c16_%05d" % i, nprocs, p.s.lines, meta={"expect": p.expect, "fm": p.fm, "feat": p.feat | {("single-recvar", xt, L, nprocs)}, "nel": p.nelems_checked})
+
+
 def gen_case(rng, i, nprocs, EC):
+    if i % 8 == 7:
+        return gen_single_recvar_case(rng, i, nprocs, EC)
     p = Prog(rng, nprocs, "@OUT@/c16.nc")
     p.create()
     if rng.random() < 0.5:
@@ -109,7 +148,8 @@ def gen_case(rng, i, nprocs, EC):
 class C16(Check):
     id = "C16"
     rule = ("schemas in which any subset of variables is in fill mode (dataset set_fill before/after definitions, def_var_fill with and "
-            "without value, _FillValue by put_att; all types; fixed and record variables), 1-5 ranks, followed by partial writes, "
+            "without value, _FillValue by put_att; all types; fixed and record variables; every 8th case a single narrow record variable "
+            "with an odd record length), 1-5 ranks, followed by partial writes, "
             "redefinitions adding filled and unfilled fixed/record variables over existing records, fill_var_rec on existing, last and new "
             "records (and on no-fill variables: NC_ENOTFILL); after every step every rank reads every variable: never-written elements of "
             "filled variables/records must equal the fill value, written ones their data; the raw final file is decoded independently. "
